@@ -208,4 +208,70 @@ theorem execute_block_binary_noise_executed (p : Par) (L : Nat) (hok : BrOk p L)
     rw [this, h1]
     rfl
 
+/-! ## Non-vacuity -/
+
+/-- the numeric side conditions hold at the parameters of the crate's blind-rotation test (`N = 2048`, radix `19`, rank `1`, two rows, three
+key limbs, two accumulator limbs, balanced key digits) for blocks of up to `8` bits on the `i64` accumulator -/
+example : BrOk { N := 2048, b := 19, rs := 2, rank := 1, dnum := 2, dsize := 1, S := 3, big128 := false, sk := [[]], Dm := 2 ^ 18, BE := 2 ^ 20 } 8 := by
+  decide
+
+/-- a toy parameter set on which every hypothesis of the theorems can be exhibited: `N = 1`, rank `0`, one row, one limb, radix `4` -/
+def toyP : Par := { N := 1, b := 2, rs := 1, rank := 0, dnum := 1, dsize := 1, S := 1, big128 := false, sk := [], Dm := 1, BE := 0 }
+
+/-- the noiseless GGSW of a bit at the toy parameters -/
+noncomputable def toyG (bit : Bool) : GBit toyP.N :=
+  { g := { base2k := 2, n := 1, rank := 0, dsize := 1, dnum := 1, size := 1, cells := [[[[if bit then 1 else 0]]]] },
+    bit := bit, EL := fun _ _ => [0], K := fun _ _ => 0 }
+
+theorem toy_ι (c : Int) : Ks.ι 1 [c] = (c : Ks.R 1) := by
+  simp [Ks.ι, toPoly]
+
+theorem toy_key (bit : Bool) :
+    Gadget.val ((2 : Ks.R 1) ^ 2) 1 (Ks.keyPhase 1 [] (toyG bit).g.toPMat 0 0)
+      = (if bit then 1 else 0) * 1 * ((2 : Ks.R 1) ^ 2) ^ (1 - (0 + 1) * 1) + (Ks.ι 1 [0] + ((2 : Ks.R 1) ^ 2) ^ 1 * 0) := by
+  unfold Gadget.val Ks.keyPhase
+  rw [Finset.sum_range_one]
+  cases bit
+  · have : Ks.phaseRow [] (Ks.rowLimb (toyG false).g.toPMat (0 * (toyG false).g.toPMat.colsIn + 0) 0) = [0] := rfl
+    rw [this, toy_ι]; simp
+  · have : Ks.phaseRow [] (Ks.rowLimb (toyG true).g.toPMat (0 * (toyG true).g.toPMat.colsIn + 0) 0) = [1] := rfl
+    rw [this, toy_ι, toy_ι]; simp
+
+theorem toyG_good (bit : Bool) : Good toyP (toyG bit) := by
+  refine ⟨rfl, by cases bit <;> decide, rfl, rfl, rfl, rfl, rfl, ?_, fun _ _ => rfl,
+    fun _ _ => by show normInf [0] ≤ (0 : Int); simp [normInf], ?_, ?_⟩
+  · intro row hrow c hc l hl y hy
+    cases bit <;> simp [toyG] at hrow <;> subst hrow <;> simp at hc <;> subst hc <;> simp at hl <;> subst hl <;> simp at hy <;> subst hy <;>
+      simp [toyP]
+  · intro j q
+    rcases j with _ | j <;> rcases q with _ | q <;> simp [PMat.entry, limbOr0, EpGGSW.toPMat, toyG, zeroP, Nat.mod_one, toyP]
+  · intro i hi r hr
+    have hi0 : i = 0 := by simp [toyP] at hi; omega
+    have hr0 : r = 0 := by simp [toyP] at hr; omega
+    subst hi0 hr0
+    have hσ : toyP.σ 0 = 1 := by simp [Par.σ]
+    rw [hσ]
+    exact toy_key bit
+
+theorem toyAcc_wf : WfC toyP [[[3]]] := by
+  refine ⟨by decide, ?_⟩
+  intro col hc l hl y hy
+  simp at hc; subst hc; simp at hl; subst hl; simp at hy; subst hy
+  simp [Par.Hin, toyP]
+
+/-- the hypotheses of `blind_rotation_noise_executed` are jointly satisfiable with a non-empty run: two blocks of one bit each -/
+example : ∃ res, bbLoop toyP.big128 toyP.N toyP.b toyP.rs toyP.S (toyP.rank + 1) toyP.dnum [[[3]]]
+      ([[(1, toyG true)], [(0, toyG false)]].map blkKeys) = some res ∧ WfC toyP res ∧
+    RingNu.nu toyP.modulus toyP.N
+        (phR toyP res - rt toyP.N ^ RingNu.xexp toyP.N (keyRot [[(1, toyG true)], [(0, toyG false)]]) * phR toyP [[[3]]])
+      ≤ 2 * (nBits [[((1 : Int), toyG true)], [(0, toyG false)]] * brB toyP) + ([[((1 : Int), toyG true)], [(0, toyG false)]].length : Int) * brU toyP :=
+  blind_rotation_noise_executed toyP 1 (by decide) (by decide) [[[3]]] toyAcc_wf [[(1, toyG true)], [(0, toyG false)]]
+    (by intro blk hb; simp at hb; rcases hb with rfl | rfl <;> simp)
+    (by intro blk hb x hx; simp at hb; rcases hb with rfl | rfl <;> simp at hx <;> subst hx
+        · exact ⟨toyG_good true, by norm_num⟩
+        · exact ⟨toyG_good false, by norm_num⟩)
+    (by intro blk hb; simp at hb; rcases hb with rfl | rfl
+        · exact Or.inr ⟨[], [], by simp [toyG], by simp, by simp⟩
+        · exact Or.inl (by simp [toyG]))
+
 end C14Exec
